@@ -8,11 +8,20 @@ re-parsed with the real pyflwdir.from_array, and compared with the declarative e
 computed in Lean (`spec`) and with the loop-for-loop model (`model`). d8_to_ldd / ldd_to_d8 are checked for
 meaning preservation (certificate evaluated in Lean on the implementation's output) and against conversion
 through the graph.
+
+Decoded sources are also parsed with the documented user `mask=` of pyflwdir.from_array (True / non-zero = valid
+cell) where the mask CUTS flow paths: rectangular windows, the upstream part of a basin (with / without the cell it
+drains through), everything but such a part, random masks, the complement of one cell; 2-D bool / uint8 / int64
+masks. The network parsed under a mask is the network of the raster restricted to the kept cells (harness' own
+brute-force reading of the raster): excluded cells are nodata, no link enters an excluded cell (a kept cell whose
+downstream cell is excluded is a pit), idxs_pit = the self-draining cells; all exports + re-parses must reproduce
+it and the export to the source format is the canonical form (Lean) of the raster with the excluded cells set to
+nodata.
 """
 import numpy as np
 from common import canon_idx, ints, exc_class, gen_shape, gen_raster_net, ds_to_np
 from props.c01 import (rand_tab, rand_xy, TAB_STYLES, XY_STYLES, ALPHA, FT_CODE, build_data, enum_tab_cases,
-                       enum_xy_cases)
+                       enum_xy_cases, DIRS, NODATA, PITS, MASK_DTYPES)
 
 OPS = ["FlwdirRaster.to_array(d8)", "FlwdirRaster.to_array(ldd)", "FlwdirRaster.to_array(nextxy)",
        "from_array(to_array(.))", "core_conversion.d8_to_ldd", "core_conversion.ldd_to_d8"]
@@ -20,7 +29,9 @@ RULE = ("source networks: decoded legal rasters of D8 / LDD / NEXTXY (uniform, f
         "off-grid pointers, DEM-derived, all-pit, pit variants; NEXTXY neighbours / any cell / self / outside / into "
         "nodata) and arbitrary idxs_ds (DEM networks, forests, functional graphs with loops) with index dtypes int32, "
         "int64, uint32, uint64; each exported to the three formats and re-parsed; enumeration of every code at every "
-        "cell of small shapes for the canonicalisation; remap on random legal arrays and the full alphabets. "
+        "cell of small shapes for the canonicalisation; remap on random legal arrays and the full alphabets; "
+        "decoded sources also parsed with a user mask= that cuts flow paths (window, upstream part of a basin with / "
+        "without its exit cell, complement of such a part, random, all-but-one-cell, full; 2-D bool / uint8 / int64). "
         "non-trivial = >= 2 valid cells, >= 1 non-pit link and (valid border cell or nodata neighbour or pit variant)")
 FMTS = ["d8", "ldd", "nextxy"]
 DTYPES = {"int32": np.int32, "int64": np.int64, "uint32": np.uint32, "uint64": np.uint64}
@@ -50,6 +61,100 @@ def nontrivial_ds(ds, shape, variant=False):
                 if ds[(ri + dr) * c + ci + dc] == n:
                     return True
     return False
+
+
+# ----------------------------------------------------------------------------------------
+# user masks: harness' own reading of a legal source raster restricted to the kept cells
+# ----------------------------------------------------------------------------------------
+MASK_FAMILIES = ["window", "window", "upstream", "upstream", "upstream_open", "downstream", "random", "random",
+                 "but_one", "full"]
+
+
+def raw_targets(desc):
+    """per cell: None = nodata cell, -1 = pit (pit code, pointer to itself or off the raster), else the index of
+    the cell the raster's code points at (which may itself be nodata / excluded)"""
+    r, c = desc["shape"]
+    fmt = desc["fmt"]
+    out = []
+    for i in range(r * c):
+        ri, ci = divmod(i, c)
+        if fmt == "nextxy":
+            x, y = desc["xs"][i], desc["ys"][i]
+            if x == NODATA[fmt]:
+                out.append(None)
+                continue
+            if x in PITS[fmt] or y in PITS[fmt]:
+                out.append(-1)
+                continue
+            r1, c1 = y - 1, x - 1
+        else:
+            v = desc["codes"][i]
+            if v == NODATA[fmt]:
+                out.append(None)
+                continue
+            if v in PITS[fmt]:
+                out.append(-1)
+                continue
+            r1, c1 = ri + DIRS[fmt][v][0], ci + DIRS[fmt][v][1]
+        j = r1 * c + c1 if (0 <= r1 < r and 0 <= c1 < c) else -1
+        out.append(-1 if j == i else j)
+    return out
+
+
+def restricted_graph(tg, keep):
+    """the graph of the raster restricted to the kept cells: ds (n = nodata / excluded), a kept valid cell whose
+    target is missing (pit, nodata, excluded) drains to itself"""
+    n = len(tg)
+    ok = [tg[i] is not None and bool(keep[i]) for i in range(n)]
+    return [n if not ok[i] else (i if tg[i] < 0 or not ok[tg[i]] else tg[i]) for i in range(n)]
+
+
+def rand_cut_mask(rng, desc, ctx):
+    """adds mask (flat, 0 = excluded) and mask_dtype to a convert desc; families that cut flow paths"""
+    r, c = desc["shape"]
+    n = r * c
+    tg = raw_targets(desc)
+    fam = rng.choice(MASK_FAMILIES)
+    keep = [1] * n
+    if fam in ("upstream", "upstream_open", "downstream"):
+        g = restricted_graph(tg, keep)
+        ups = [[] for _ in range(n)]
+        for i, d in enumerate(g):
+            if d != n and d != i:
+                ups[d].append(i)
+        cands = [i for i in range(n) if ups[i]]
+        if not cands:
+            fam = "window"
+        else:
+            k = rng.choice(cands)
+            part, todo = {k}, [k]
+            while todo:                      # loops are finite: visited set
+                for u in ups[todo.pop()]:
+                    if u not in part:
+                        part.add(u)
+                        todo.append(u)
+            if fam == "upstream_open":       # without the cell the part drains through
+                part.discard(k)
+            keep = [int((i in part) != (fam == "downstream")) for i in range(n)]
+    if fam == "window":
+        r0, r1 = sorted((rng.randrange(r), rng.randrange(r)))
+        c0, c1 = sorted((rng.randrange(c), rng.randrange(c)))
+        if (r1 - r0 + 1) * (c1 - c0 + 1) == n:      # not the whole raster: drop one edge row / column
+            if c > 1:
+                c0, c1 = (c0 + 1, c1) if rng.random() < 0.5 else (c0, c1 - 1)
+            else:
+                r0, r1 = (r0 + 1, r1) if rng.random() < 0.5 else (r0, r1 - 1)
+        keep = [int(r0 <= i // c <= r1 and c0 <= i % c <= c1) for i in range(n)]
+    elif fam == "random":
+        p = rng.choice([0.5, 0.75, 0.9])
+        keep = [int(rng.random() < p) for _ in range(n)]
+    elif fam == "but_one":
+        keep[rng.randrange(n)] = 0
+    desc["mask_dtype"] = rng.choice(["bool", "bool", "uint8", "int64"])
+    top = 1 if desc["mask_dtype"] == "bool" else 3
+    desc["mask"] = [rng.randint(1, top) if k else 0 for k in keep]
+    ctx.count("mask:" + fam)
+    ctx.count("mask:dtype:" + desc["mask_dtype"])
 
 
 def export_all(ctx, flw, shape):
@@ -141,9 +246,24 @@ def run_convert(ctx, desc):
     n = shape[0] * shape[1]
     src = desc["fmt"]
     data = build_data({**desc, "form": "array"})
+    kw, tg, exp_ds, cuts = {}, None, None, False
+    if desc.get("mask") is not None:
+        # documented user mask (2-D, True / non-zero = valid cell); the parsed network is the raster's network
+        # restricted to the kept cells
+        kw["mask"] = np.array(desc["mask"], dtype=MASK_DTYPES[desc.get("mask_dtype", "bool")]).reshape(shape)
+        tg = raw_targets(desc)
+        exp_ds = restricted_graph(tg, desc["mask"])
+        cuts = any(t is not None and t >= 0 and desc["mask"][i] and tg[t] is not None and not desc["mask"][t]
+                   for i, t in enumerate(tg))
+        ctx.count("mask:cuts-a-flow-path" if cuts else "mask:cuts-nothing")
     try:
-        flw = pf.from_array(data, ftype=src)
-    except ValueError:
+        flw = pf.from_array(data, ftype=src, **kw)
+    except ValueError as e:
+        if exp_ds is not None and n > 1 and any(exp_ds[i] == i for i in range(n)):
+            ctx.evaluations += 1
+            ctx.fail(desc, "spec", f"from_array(mask=) of a legal {src} raster whose kept part has a pit raised "
+                     f"{exc_class(e)}: {e!r}"[:220])
+            return
         ctx.count("source-rejected(no pit / size<=1)")
         return
     except Exception as e:  # noqa: BLE001
@@ -152,20 +272,39 @@ def run_convert(ctx, desc):
         return
     ds = canon_idx(flw.idxs_ds, n)
     pits = sorted(canon_idx(flw.idxs_pit, n))
+    pre = []
+    if exp_ds is not None:
+        open_links = [i for i in range(n) if ds[i] != n and ds[ds[i]] == n]
+        if open_links:
+            pre.append({"kind": "spec", "what": "network parsed with mask= is not closed: kept cells link into "
+                        "excluded / nodata cells instead of being pits", "cells": open_links[:10],
+                        "impl": [ds[i] for i in open_links[:10]]})
+        if [int(d != n) for d in ds] != [int(d != n) for d in exp_ds]:
+            pre.append({"kind": "spec", "what": "valid cells of the network parsed with mask= are not the kept "
+                        "non-nodata cells", "impl": [int(d != n) for d in ds], "expected": [int(d != n) for d in exp_ds]})
+        elif ds != exp_ds:
+            pre.append({"kind": "spec", "what": "network parsed with mask= is not the raster's network restricted to "
+                        "the kept cells", "impl": ds, "expected": exp_ds})
+        if pits != [i for i in range(n) if ds[i] == i]:
+            pre.append({"kind": "spec", "what": "idxs_pit of the network parsed with mask= are not its self-draining "
+                        "cells", "impl": pits, "expected": [i for i in range(n) if ds[i] == i]})
     from common import aged
     # the exported object may have answered other queries before (loop-safe ones: sources may contain loops)
     flw = aged(flw, p=0.45, loopfree=False)
     obs = export_all(ctx, flw, shape)
     reqs = requests_for(ds, shape)
     cargs = {"nrow": shape[0], "ncol": shape[1], "ft": FT_CODE[src]}
+    # canonical form of the source raster with the excluded cells set to nodata (identity without a mask)
+    keep = desc.get("mask") or [1] * n
     if src == "nextxy":
-        cargs.update(xs=desc["xs"], ys=desc["ys"])
+        cargs.update(xs=[x if k else NODATA[src] for x, k in zip(desc["xs"], keep)],
+                     ys=[y if k else NODATA[src] for y, k in zip(desc["ys"], keep)])
     else:
-        cargs.update(codes=desc["codes"])
+        cargs.update(codes=[v if k else NODATA[src] for v, k in zip(desc["codes"], keep)])
     reqs.append(("c02.canon", cargs))
 
     def judge(ans):
-        fs = judge_exports(ds, pits, obs, dict(zip(FMTS, ans[:3])), src)
+        fs = pre + judge_exports(ds, pits, obs, dict(zip(FMTS, ans[:3])), src)
         c = ans[3]
         if "__err__" in c:
             return fs + [{"kind": "model", "what": "driver error " + c["__err__"]}]
@@ -185,7 +324,7 @@ def run_convert(ctx, desc):
         return fs
 
     variant = (src == "d8" and 255 in desc["codes"]) or (src == "nextxy" and -10 in desc["xs"])
-    ctx.add(desc, reqs, judge, nontrivial=nontrivial_ds(ds, shape, variant))
+    ctx.add(desc, reqs, judge, nontrivial=nontrivial_ds(ds, shape, variant) and (exp_ds is None or cuts))
 
 
 def run_export(ctx, desc):
@@ -293,6 +432,10 @@ def run(ctx):
         d.pop("form", None)
         ctx.count("enum:" + d["fmt"])
         dispatch(ctx, d)
+        if rng.random() < 0.1:
+            dm = dict(d)
+            rand_cut_mask(rng, dm, ctx)
+            dispatch(ctx, dm)
         if len(ctx.cases) > 300:
             ctx.flush()
 
@@ -314,6 +457,10 @@ def run(ctx):
                 style = rng.choice([s for s in TAB_STYLES if s != "all_nodata"])
                 desc["codes"] = rand_tab(rng, fmt, shape, style)
             ctx.count(f"convert:{fmt}:{style}")
+            if rng.random() < 0.45:   # the same source once more, parsed under a user mask (extra case)
+                dm = dict(desc)
+                rand_cut_mask(rng, dm, ctx)
+                dispatch(ctx, dm)
         elif u < 0.80:    # arbitrary idxs_ds, chosen dtype
             ds, shape, fam = gen_raster_net(rng, max_cells=56 if quick else 400, loopfree=False)
             desc = {"op": "export", "shape": list(shape), "ds": ds, "dtype": rng.choice(list(DTYPES)),
